@@ -11,14 +11,14 @@ namespace Netpoll.Shard
 def APc.site : APc → String
   | .state => "Add#0" | .idx => "Add#1" | .lock => "lock#0" | .append => "Add#2" | .unlock => "unlock#0"
   | .lLock => "triggering#0" | .lWrite => "triggering#1" | .lUnlock => "triggering#2" | .trig => "triggering#3"
-  | .run => "foreach#0" | .spawn => "foreach#1" | .done => "-" | .panicked => "-"
+  | .run => "foreach#0" | .spawn => "foreach#1" | .done => "-"
 
 def APc.op : APc → String
   | .state => "load q.state" | .idx => "add q.idx 1" | .lock => "cas q.locks[shard] 0 1"
   | .append => "plain r:getters w:getters" | .unlock => "store q.locks[shard] 0"
   | .lLock => "mlock q.listLock" | .lWrite => "plain r:w w:list,w" | .lUnlock => "munlock q.listLock"
   | .trig => "add q.trigger 1" | .run => "add q.runNum 1" | .spawn => "spawn runner.RunTask"
-  | .done => "-" | .panicked => "-"
+  | .done => "-"
 
 def WPc.site : WPc → String
   | .idle => "-" | .load => "foreach#2" | .rd => "foreach#3" | .lock => "lock#0" | .swap => "foreach#4"
@@ -32,18 +32,18 @@ def WPc.op : WPc → String
   | .sub => "add q.trigger negNum" | .flush => "conn Writer.Flush" | .store => "store q.runNum 0"
 
 def TPc.site : TPc → String
-  | .recheck => "foreach#8" | .run => "foreach#0" | .spawn => "foreach#1" | .cas => "foreach#9"
+  | .recheck => "foreach#8" | .run => "foreach#0" | .spawn => "foreach#1"
 
 def TPc.op : TPc → String
   | .recheck => "load q.trigger" | .run => "add q.runNum 1" | .spawn => "spawn runner.RunTask"
-  | .cas => "cas q.state closing closed"
 
 def CPc.site : CPc → String
-  | .cas => "Close#0" | .state => "Close#1" | .trig => "Close#2" | .store => "Close#3"
+  | .cas => "Close#0" | .lock => "lock#0" | .read => "drained#0" | .unlock => "unlock#0" | .trig => "drained#1"
+  | .store => "Close#1"
 
 def CPc.op : CPc → String
-  | .cas => "cas q.state active closing" | .state => "load q.state" | .trig => "load q.trigger"
-  | .store => "store q.state closed"
+  | .cas => "cas q.state active closing" | .lock => "cas q.locks[shard] 0 1" | .read => "plain r:getters w:-"
+  | .unlock => "store q.locks[shard] 0" | .trig => "load q.trigger" | .store => "store q.state closed"
 
 def sa (pc : APc) : String × String := (pc.site, pc.op)
 def sw (pc : WPc) : String × String := (pc.site, pc.op)
@@ -55,18 +55,23 @@ def nb (d : String) : String × String := ("", d)
 /-- the steps the model assumes for each Go function, in program order -/
 def expected_Add : List (String × String) :=
   [sa .state, sa .idx, nb "call lock", sa .append, nb "call unlock", nb "call triggering"]
-def expected_Close : List (String × String) := [sc .cas, sc .state, sc .trig, sc .store, nb "gosched"]
+/-- the two local computations of `Add` the model relies on: the early return of a call without getters
+    (`newAdder`) and the shard index taken from the counter as `uint32` (`shardOf`) -/
+def expected_Add_guard : String := "len(gts)==0"
+def expected_Add_shard : String := "int32(uint32(atomic.AddInt32(&q.idx,1))%uint32(q.size))"
+def expected_Close : List (String × String) := [sc .cas, nb "call drained", nb "gosched", sc .store]
+def expected_drained : List (String × String) := [nb "call lock", sc .read, nb "call unlock", sc .trig]
 def expected_triggering : List (String × String) :=
   [sa .lLock, sa .lWrite, sa .lUnlock, sa .trig, nb "call foreach"]
 def expected_foreach : List (String × String) :=
   [sa .run, sa .spawn, sw .load, sw .rd, nb "call lock", sw .swap, nb "call unlock", sw .dealCall, nb "call deal",
-   sw .sub, nb "call flush", sw .store, st .recheck, nb "call foreach", st .cas]
+   sw .sub, nb "call flush", sw .store, st .recheck, nb "call foreach"]
 def expected_deal : List (String × String) :=
   [nb WPc.isAct.op, nb "conn Writer", nb WPc.deal.op, nb "writer Append", nb "conn Close"]
 def expected_flush : List (String × String) := [nb WPc.flush.op, nb "conn Close"]
 def expected_lock : List (String × String) := [sa .lock, nb "gosched"]
 def expected_unlock : List (String × String) := [sa .unlock]
 def expected_funcs : List String :=
-  ["init", "NewShardQueue", "Add", "Close", "triggering", "foreach", "deal", "flush", "lock", "unlock"]
+  ["init", "NewShardQueue", "Add", "Close", "drained", "triggering", "foreach", "deal", "flush", "lock", "unlock"]
 
 end Netpoll.Shard
